@@ -36,6 +36,13 @@ def _eps(dtype):
     return float(np.finfo(np.float64).eps)
 
 
+def _tiny(dtype):
+    dt = np.dtype(dtype)
+    if dt.kind in 'fc':
+        return float(np.finfo(dt).tiny)
+    return float(np.finfo(np.float64).tiny)
+
+
 # --------------------------------------------------------------------------
 # grids
 
@@ -86,9 +93,11 @@ def axis_weights(coords, xmin, xmax):
 
 def quadrature_weights(coord_vecs, mins, maxs):
     """Cell volume, per-entry boundary fraction product, any fraction != 1,
-    domain volume."""
+    domain volume, per-entry number of boundary scalings (axes on whose
+    boundary with a fraction != 1 the entry lies)."""
     shape = tuple(len(c) for c in coord_vecs)
     frac = np.ones(shape, dtype=LD)
+    nsc = np.zeros(shape, dtype=LD)
     vol = LD(1)
     cell = LD(1)
     any_frac = False
@@ -105,7 +114,8 @@ def quadrature_weights(coord_vecs, mins, maxs):
         sh = [1] * len(shape)
         sh[ax] = len(c)
         frac = frac * f.reshape(sh)
-    return cell, frac, any_frac, vol
+        nsc = nsc + (np.abs(f - 1) > 1e-9).astype(LD).reshape(sh)
+    return cell, frac, any_frac, vol, nsc
 
 
 # --------------------------------------------------------------------------
@@ -180,7 +190,8 @@ def model(sd):
             'has_norm': True, 'has_dist': True, 'size': size, 'shape': shape,
             'eps': _eps(sd.get('dtype', 'float64')), 'custom': None,
             'complex': np.dtype(sd.get('dtype', 'float64')).kind == 'c',
-            'bdry': False, 'cellvol': None, 'vol': None, 'default_w': False}
+            'bdry': False, 'cellvol': None, 'vol': None, 'default_w': False,
+            'nsc': None, 'tiny': _tiny(sd.get('dtype', 'float64'))}
     base = np.ones(shape, dtype=LD)
     if wkind == 'const':
         base = base * uw
@@ -211,8 +222,8 @@ def model(sd):
         node['wkind'] = 'nonuniform-' + wkind
         return node
 
-    cell, frac, any_frac, vol = quadrature_weights(coords, sd['min'],
-                                                   sd['max'])
+    cell, frac, any_frac, vol, nsc = quadrature_weights(coords, sd['min'],
+                                                        sd['max'])
     node['cellvol'] = float(cell)
     node['vol'] = vol
     if wkind == 'none':
@@ -224,6 +235,7 @@ def model(sd):
         # boundary fractions enter the integral, not the maximum
         base = base * frac
         node['bdry'] = any_frac
+        node['nsc'] = nsc
     node['w'] = base
     return node
 
@@ -321,3 +333,44 @@ def absmax(x):
         return max([absmax(a) for a in x] or [0.0])
     a = np.abs(np.asarray(x))
     return float(a.max()) if a.size else 0.0
+
+
+def underflow_floor(node):
+    """Absolute accuracy floor of a norm / distance: a term w |d|^p below
+    the smallest normal number of the data type may be lost entirely, so
+    the sum is only known up to sum(w) * tiny and the p-th root up to
+    (sum(w) * tiny)^(1/p); product spaces reduce the floors of their
+    components like norms (triangle inequality).  Zero for p = inf."""
+    p = node['p']
+    if node['leaf']:
+        if p == INF or node['size'] == 0:
+            return LD(0)
+        return (node['w'].sum() * LD(node['tiny'])) ** (1 / LD(p))
+    fs = np.array([underflow_floor(c) for c in node['parts']], dtype=LD)
+    if fs.size == 0:
+        return LD(0)
+    if p == INF:
+        return (node['w'] * fs).max()
+    return ((node['w'] * fs ** LD(p)).sum()) ** (1 / LD(p))
+
+
+def boundary_scaling_error(node, x, y):
+    """Perturbation vector of dist(x, y) on uniformly discretized spaces:
+    the library multiplies the boundary entries of x and of y by
+    frac^(1/p) *before* subtracting, one rounding per scaled axis, i.e. an
+    absolute error k * eps * (|x_i| + |y_i|) in entry i (k = number of
+    scalings) in the unscaled domain.  By the triangle inequality the
+    distance moves by at most the norm of this vector."""
+    if node['leaf']:
+        A = np.abs(_c(x)).astype(LD) + np.abs(_c(y)).astype(LD)
+        if node['nsc'] is None:
+            return np.zeros(A.shape, dtype=LD)
+        return node['nsc'] * LD(node['eps']) * A
+    return [boundary_scaling_error(c, xi, yi)
+            for c, xi, yi in zip(node['parts'], x, y)]
+
+
+def differ(x, y):
+    if isinstance(x, list):
+        return any(differ(a, b) for a, b in zip(x, y))
+    return bool(np.any(np.asarray(x) != np.asarray(y)))
